@@ -5,9 +5,10 @@ use vcore::proptest::prelude::*;
 use vcore::proptest::strategy::Union;
 use vcore::{Cx, Level as VLevel, Res};
 
-const RULE: &str = "a case is a well-nested program tree over {Check(observation form) | Frame{instance A/B/shared, ctxt wrapper (direct, &, Box, Arc, Option Some/None, AssertInternal, dyn ErasedCtxt with 1-word/2-word inline and boxed-by-size/boxed-by-alignment frames, Box<dyn>), kind push/root/disabled/current, created via Frame::* or ctxt.open_*, <=4 props with distinct keys from an 8-key alphabet, how = guard | with | call | in_fn | in_fn on a fresh thread | in_future | enter-twice | manual into_parts/enter/exit/from_parts | manual ... close, body} | Create (frame kept for later) | Enter{stored frame, how, body} (deferred enter, re-entry, frames carried in from elsewhere) | CatchPanic{body} | Panic | Thread{carried frames, body} (fresh OS thread, joined) | Join{tasks with carried frames, poll schedule} (single-thread executor) | Yield}, nesting depth <=6, interpreted against the real emit code and a lexical model in lock-step. Non-trivial = at some point >=2 frames are simultaneously active on one thread AND the run contains at least one of: a frame entered on another thread than the one it was created on; a task holding an in_future frame resumed after another task of the same executor ran; a panic unwinding through >=1 entered frame; a Frame value entered for the second time; a frame entered while a frame of a different context instance is active on the same thread.";
+const RULE: &str = "a case is a well-nested program tree over {Check(observation form) | Frame{instance A/B/shared, ctxt wrapper (direct, &, Box, Arc, Option Some/None, AssertInternal, dyn ErasedCtxt with 1-word/2-word inline and boxed-by-size/boxed-by-alignment frames, Box<dyn>), kind push/root/disabled/current, created via Frame::* or ctxt.open_*, <=4 props with distinct keys from an 8-key alphabet, how = guard | with | call | in_fn | in_fn on a fresh thread | in_future | enter-twice | manual into_parts/enter/exit/from_parts | manual ... close, body} | Create (frame kept for later) | Enter{stored frame, how, body} (deferred enter, re-entry, frames carried in from elsewhere) | CatchPanic{body} | Panic | Thread{carried frames, body} (fresh OS thread, joined) | Join{tasks with carried frames, poll schedule} (single-thread executor) | Yield}, nesting depth <=6, interpreted against the real emit code and a lexical model in lock-step. Non-trivial = at some point >=2 frames are simultaneously active on one thread AND the run contains at least one of: a frame entered on another thread than the one it was created on; a task holding an in_future frame resumed after another task of the same executor ran; a panic unwinding through >=1 entered frame; a Frame value entered for the second time; a frame entered while a frame of a different context instance is active on the same thread. A second generator (instance-id-races) SAMPLES THE OS SCHEDULER: 2-8 threads released together by a spin barrier create fresh ThreadLocalCtxt::new() instances in 5-100 small rounds of 1-20 with generated spin skews; all instances plus shared() are handed to one fresh thread that enters one root/push frame per instance carrying the instance's own owner number, requires every instance to show exactly its own frame while all are entered, exits in stack order and requires everything to be empty; its cases are non-trivial when >=2 creator threads produced >=3 instances. Which creation interleavings occur is not controlled, the verdict needs no schedule knowledge.";
 
-const ASSUMPTIONS: [&str; 6] = [
+const ASSUMPTIONS: [&str; 7] = [
+    "instance-id-races samples whatever interleavings of concurrent ThreadLocalCtxt::new() calls the OS scheduler produces on this machine (not enumerated, not reproducible from the seed alone; a stored failing workload is re-run 200 times on replay); its oracle (every instance shows exactly its own entered frame) holds for every interleaving, so a reported violation is never schedule-dependent, only its discovery is",
     "the model is lexical: the value of a frame is fixed at creation (push = visible-at-creation overlaid by own props; root = own props; disabled/current = visible-at-creation) and what is visible at a program point is the value of the innermost frame of that instance active at that point of that thread/task; nothing of the implementation (swap, ids, Arc'd maps) is modelled",
     "a disabled frame that is entered somewhere else than where it was created shows what was visible where it was created (rustdoc: 'props could have been pushed, but were filtered out', i.e. a push of nothing); created-and-entered-in-place this coincides with 'adds nothing'",
     "values are compared by their Display text against the Display of the value handed in, plus a typed read (i64/bool/TraceId/SpanId via Value::cast) for values that went in with that type; deeper value fidelity is C19's subject",
@@ -313,6 +314,25 @@ fn nested_pairs() -> impl Iterator<Item = Case> + Send {
     out.into_iter()
 }
 
+fn race_case() -> impl Strategy<Value = race::RaceCase> {
+    (
+        2u8..=8,
+        5u16..=100,
+        1u16..=20,
+        prop::collection::vec(prop_oneof![3 => Just(0u16), 2 => 0u16..50, 1 => 0u16..2000], 1..=8),
+        any::<u32>(),
+        any::<u64>(),
+    )
+        .prop_map(|(threads, rounds, per_round, skews, shared_at, kinds)| race::RaceCase {
+            threads,
+            rounds,
+            per_round,
+            skews,
+            shared_at,
+            kinds,
+        })
+}
+
 fn count(nodes: &[Node]) -> usize {
     nodes
         .iter()
@@ -389,6 +409,11 @@ fn main() {
         ] {
             s.require(c, q / 400);
         }
+        s.require("race:case", 20);
+        s.require("race:threads>=4", 10);
+        // OS-schedule sampling, run one workload at a time so that the creator threads really run in parallel
+        let races = s.sample("instance-id-races", race_case(), s.n(250, 6_000) as usize);
+        s.manual("instance-id-races", races, race::check);
         s.enumerate("nested-pairs-exhaustive", nested_pairs(), check);
         s.gen("programs", s.n(60_000, 2_000_000), program, check);
     })
